@@ -30,7 +30,7 @@ class Window:
     """Execution context of one window run.  mode 'base': k = 0 (no previous row); mode 'step': k >= 1."""
 
     def __init__(self, mode: str, tag: str):
-        assert mode in ("base", "step")
+        assert mode in ("base", "step", "last")
         self.mode = mode
         self.tag = tag
         self.counters: Dict[str, int] = {}
@@ -74,12 +74,13 @@ class WSeries:
         op_, oc, opn, ocn = self._other(other)
         if isinstance(op, (ast.BitAnd, ast.BitOr)):
             f = z_and if isinstance(op, ast.BitAnd) else z_or
-            return self._mk(f(pyvc.truth(self.prev), pyvc.truth(op_)) if self.w.mode == "step" else None,
-                            f(pyvc.truth(self.cur), pyvc.truth(oc)), False, False, "bool")
+            return self._mk(f(pyvc.truth(self.prev), pyvc.truth(op_)) if self.w.mode in ("step", "last") and self.prev is not None else None,
+                            f(pyvc.truth(self.cur), pyvc.truth(oc)) if self.cur is not None and oc is not None else None, False, False, "bool")
         def ap(a, b):
             return ex.binop(op, b, a, pc) if reflected else ex.binop(op, a, b, pc)
-        prev = ap(self.prev, op_) if self.w.mode == "step" and self.prev is not None and op_ is not None else None
-        return self._mk(prev, ap(self.cur, oc), z_or(self.pnull, opn), z_or(self.cnull, ocn), self.dtype)
+        prev = ap(self.prev, op_) if self.w.mode in ("step", "last") and self.prev is not None and op_ is not None else None
+        cur = ap(self.cur, oc) if self.cur is not None and oc is not None else None
+        return self._mk(prev, cur, z_or(self.pnull, opn), z_or(self.cnull, ocn), self.dtype)
 
     def hv_compare(self, ex, op, other, reflected):
         op_, oc, opn, ocn = self._other(other)
@@ -92,12 +93,13 @@ class WSeries:
                 return c
             return z_or(nn, c) if neq else z_and(z_not(nn), c)  # comparisons with NaN are False (True for !=)
 
-        prev = cmp(self.prev, op_, self.pnull, opn) if self.w.mode == "step" and self.prev is not None and op_ is not None else None
-        return self._mk(prev, cmp(self.cur, oc, self.cnull, ocn), False, False, "bool")
+        prev = cmp(self.prev, op_, self.pnull, opn) if self.w.mode in ("step", "last") and self.prev is not None and op_ is not None else None
+        cur = cmp(self.cur, oc, self.cnull, ocn) if self.cur is not None and oc is not None else None
+        return self._mk(prev, cur, False, False, "bool")
 
     def hv_unary(self, ex, op):
         if isinstance(op, ast.Invert):
-            return self._mk(z_not(pyvc.truth(self.prev)) if self.prev is not None else None, z_not(pyvc.truth(self.cur)), False, False, "bool")
+            return self._mk(z_not(pyvc.truth(self.prev)) if self.prev is not None else None, z_not(pyvc.truth(self.cur)) if self.cur is not None else None, False, False, "bool")
         raise Unsupported("unary on window series")
 
     def hv_call_method(self, ex, attr, args, kwargs, pc, env):
@@ -136,13 +138,16 @@ class WSeries:
         if attr == "cumsum":
             _assume("pandas Series.cumsum(): running sum (True counts 1)")
             nm = w.fresh_name("cumsum")
-            x = self.cur
+            x = self.cur if self.cur is not None else 0
             if isinstance(x, (bool, z3.BoolRef)):
                 x = z3.If(to_z3(x), 1, 0)
-            if self.cnull is not False:
+            if self.cnull is not False and w.mode != "last":
                 raise Unsupported("cumsum over a nullable series")
             if w.mode == "base":
                 cur, prev = to_z3(x), None
+            elif w.mode == "last":
+                sp, _ = w.prev_sym(nm)
+                cur, prev = None, sp
             else:
                 sp, _ = w.prev_sym(nm)
                 cur, prev = sp + to_z3(x), sp
@@ -291,5 +296,167 @@ def window_frame(w: Window, columns: Dict[str, str], sorted_by: str, tag: str) -
     for c, dt in columns.items():
         p, q = z3.Int(f"{tag}_{c}_prev"), z3.Int(f"{tag}_{c}_cur")
         syms[c] = (p, q)
-        cols[c] = WSeries(w, p if w.mode == "step" else None, q, False, False, dt, c)
+        cols[c] = WSeries(w, p if w.mode in ("step", "last") else None, q if w.mode != "last" else None, False, False, dt, c)
     return WFrame(w, cols, sorted_by), syms
+
+
+# ---------------------------------------------------------------------------------------------- forward window (row i, row i+1)
+#
+# For sweeps the window is read as (row i = prev, row i+1 = cur).  Frame-level shift(-1) exposes the next row's values at
+# row i; `dropna()` removes the last row (whose shifted values are NaN); an index merge pairs row i with itself.  `.sum()`
+# of a series returns a WSum whose `term` is the summand contributed by row i (the prev component), so that
+#       total = sum over i of term(i).
+# Mode 'last' (row i = n-1, no next row) exists to show that the last row contributes what the contract says (usually 0).
+
+
+class WSum:
+    """sum over the rows of a window series: per-row summand `term` (value for row i = the prev component; 0 where absent/null)."""
+
+    def __init__(self, w: Window, term):
+        self.w, self.term = w, term
+
+    def __deepcopy__(self, memo):
+        return self
+
+    def hv_binop(self, ex, op, other, reflected, pc):
+        return WExpr(self.w, op, other, self, reflected)
+
+
+class WExpr:
+    def __init__(self, w, op, other, wsum, reflected):
+        self.w, self.op, self.other, self.wsum, self.reflected = w, op, other, wsum, reflected
+
+    def __deepcopy__(self, memo):
+        return self
+
+
+class WSel(WFrame):
+    """A window frame with a presence mask (rows selected by a boolean series) or shifted columns."""
+
+    def __init__(self, w, cols, present_prev, present_cur, sorted_by=None):
+        super().__init__(w, cols, sorted_by)
+        self.present_prev, self.present_cur = present_prev, present_cur
+
+    def hv_call_method(self, ex, attr, args, kwargs, pc, env):
+        if attr == "merge":
+            return _wmerge(self, args[0], kwargs)
+        if attr == "dropna":
+            return _wdropna(self)
+        return super().hv_call_method(ex, attr, args, kwargs, pc, env)
+
+
+def _presence(f):
+    if isinstance(f, WSel):
+        return f.present_prev, f.present_cur
+    return True, True
+
+
+def _wselect(f: WFrame, mask: WSeries) -> WSel:
+    pp, pc_ = _presence(f)
+    return WSel(f.w, f.cols, z_and(pp, pyvc.truth(mask.prev)) if mask.prev is not None else None, z_and(pc_, pyvc.truth(mask.cur)) if mask.cur is not None else None, f.sorted_by)
+
+
+def _wshift_next(f: WFrame) -> WSel:
+    """frame.shift(-1): row i holds the values of row i+1; NaN in the last row."""
+    _assume("pandas DataFrame.shift(-1): every column holds the next row's value, NaN in the last row")
+    w = f.w
+    cols = {}
+    for c, s in f.cols.items():
+        if w.mode == "last":
+            cols[c] = WSeries(w, NULLV, None, True, True, s.dtype, c)
+        else:
+            nxt = z3.Const(f"{w.tag}_{c}_next2_{w.fresh_name('n')}", z3.IntSort())
+            cols[c] = WSeries(w, s.cur, nxt, s.cnull, z3.Bool(f"{w.tag}_{c}_next2null_{w.fresh_name('nn')}"), s.dtype, c)
+    pp, pc_ = _presence(f)
+    return WSel(w, cols, pp, pc_, f.sorted_by)
+
+
+def _wdropna(f: WSel) -> WSel:
+    _assume("pandas DataFrame.dropna(): removes the rows holding any missing value")
+    anyp = z_or(*[s.pnull for s in f.cols.values()])
+    anyc = z_or(*[s.cnull for s in f.cols.values() if s.cur is not None]) if f.w.mode != "last" else True
+    return WSel(f.w, f.cols, z_and(f.present_prev, z_not(anyp)), z_and(f.present_cur, z_not(anyc)) if f.w.mode != "last" else None, f.sorted_by)
+
+
+def _wmerge(left: WFrame, right, kwargs) -> WSel:
+    if not (kwargs.get("left_index") and kwargs.get("right_index")) or kwargs.get("how", "inner") != "inner":
+        raise Unsupported("window merge other than inner on both indexes")
+    if not isinstance(right, WFrame) or right.w is not left.w:
+        raise Unsupported("window merge operand")
+    _assume("pandas merge(left_index=True, right_index=True) on unique labels: one row per label present on both sides; clashing columns get _x / _y")
+    cols = {}
+    for c, s in left.cols.items():
+        cols[c + "_x" if c in right.cols else c] = s
+    for c, s in right.cols.items():
+        cols[c + "_y" if c in left.cols else c] = s
+    lp, lc = _presence(left)
+    rp, rc = _presence(right)
+    return WSel(left.w, cols, z_and(lp, rp), z_and(lc, rc) if left.w.mode != "last" else None, left.sorted_by)
+
+
+# extend WFrame with selection / shift / reset_index and WSeries with sum
+_old_getitem = WFrame.hv_getitem
+
+
+def _wf_getitem(self, ex, idx, pc):
+    if isinstance(idx, WSeries) and idx.dtype == "bool":
+        return _wselect(self, idx)
+    return _old_getitem(self, ex, idx, pc)
+
+
+WFrame.hv_getitem = _wf_getitem
+_old_wf_call = WFrame.hv_call_method
+
+
+def _wf_call(self, ex, attr, args, kwargs, pc, env):
+    if attr == "shift":
+        periods = args[0] if args else kwargs.get("periods", 1)
+        if periods == -1:
+            return _wshift_next(self)
+        raise Unsupported("frame shift other than -1 in window mode")
+    if attr == "reset_index":
+        return self
+    if attr == "merge":
+        return _wmerge(self, args[0], kwargs)
+    return _old_wf_call(self, ex, attr, args, kwargs, pc, env)
+
+
+WFrame.hv_call_method = _wf_call
+_old_ws_call = WSeries.hv_call_method
+
+
+def _ws_call(self, ex, attr, args, kwargs, pc, env):
+    if attr == "sum":
+        _assume("pandas Series.sum(): sum of the non-missing values of the rows present")
+        owner = getattr(self, "owner", None)
+        pp = owner.present_prev if isinstance(owner, WSel) else True
+        term = z_ite(z_and(pp, z_not(self.pnull)), self.prev, 0) if self.prev is not None else 0
+        return WSum(self.w, term)
+    return _old_ws_call(self, ex, attr, args, kwargs, pc, env)
+
+
+WSeries.hv_call_method = _ws_call
+_old_sel_getitem = WSel.hv_getitem
+
+
+def _sel_getitem(self, ex, idx, pc):
+    r = _wf_getitem(self, ex, idx, pc)
+    if isinstance(r, WSeries):
+        r = WSeries(r.w, r.prev, r.cur, r.pnull, r.cnull, r.dtype, r.name)
+        r.owner = self
+    return r
+
+
+WSel.hv_getitem = _sel_getitem
+_old_binop = WSeries.hv_binop
+
+
+def _ws_binop(self, ex, op, other, reflected, pc):
+    r = _old_binop(self, ex, op, other, reflected, pc)
+    own = getattr(self, "owner", None) or (getattr(other, "owner", None) if isinstance(other, WSeries) else None)
+    if own is not None:
+        r.owner = own
+    return r
+
+
+WSeries.hv_binop = _ws_binop
